@@ -1308,7 +1308,7 @@ def gen_malformed(rng):
 
 
 def cases(rng, tier):
-    n = 320 if tier == "quick" else 5000
+    n = 280 if tier == "quick" else 5000
     for k in range(n):
         r = rng.random()
         if r < 0.30:
@@ -2188,7 +2188,7 @@ def _oracle_api(case):
                 for state, g in (("filled-by-set_structure", base), ("re-read", _reread(base))):
                     alts = ["first", "all"] + (["occupancy"] if "occupancy" in one.get_annotation_categories() else [])
                     for alt in alts:
-                        for mdl in (1, None):
+                        for mdl in ((1, None) if alt == "all" else (1,)):
                             snap = _file_bytes(g)
                             kw = dict(_read_kw(s1), model=mdl, altloc=alt)
                             r = pdbx.get_structure(g, **kw)
